@@ -43,11 +43,11 @@ def make_lp(lp, binz_id, share):
     elif k == "random":
         o = LP.Random()
     elif k == "lingreedy":
-        o = LP.LinGreedy(epsilon=lp["eps"], l2_lambda=lp["lam"])
+        o = LP.LinGreedy(epsilon=lp["eps"], l2_lambda=lp["lam"], scale=lp.get("scale", False))
     elif k == "linucb":
-        o = LP.LinUCB(alpha=lp["alpha"], l2_lambda=lp["lam"])
+        o = LP.LinUCB(alpha=lp["alpha"], l2_lambda=lp["lam"], scale=lp.get("scale", False))
     else:
-        o = LP.LinTS(alpha=lp["alpha"], l2_lambda=lp["lam"])
+        o = LP.LinTS(alpha=lp["alpha"], l2_lambda=lp["lam"], scale=lp.get("scale", False))
     _POLICY_CACHE[key] = o
     return o
 
@@ -76,7 +76,7 @@ def make_np(npc, share):
 
 def make(cfg, share, seed_shift=0):
     return MAB(list(cfg["arms"]), make_lp(cfg["lp"], cfg.get("binz"), share), make_np(cfg.get("np"), share),
-               seed=cfg.get("seed", 1) + seed_shift, n_jobs=1)
+               seed=cfg.get("seed", 1) + seed_shift, n_jobs=cfg.get("n_jobs", 1), backend=cfg.get("backend"))
 
 
 def canon(x):
